@@ -251,22 +251,69 @@ func (fv *funcVerifier) globalLval(st *State, o *types.Var) lval {
 
 // ---- heap access ----
 
+// interiorPtr records that reference p denotes element pos of backing array arr (elements of struct type elem).
+type interiorPtr struct {
+	p, arr, pos smt.Term
+	elem        types.Type
+}
+
 func (fv *funcVerifier) fieldLval(st *State, ref smt.Term, structType types.Type, f *structField) lval {
 	key := fv.so.fieldKey(structType, f.name)
 	fv.regHeap(key, smt.Arr(smt.Int, f.sort))
+	var ints []interiorPtr
+	if !hasBoundVar(ref) {
+		for _, e := range fv.interior {
+			if types.Identical(e.elem, structType) {
+				ints = append(ints, e)
+			}
+		}
+	}
 	return lval{typ: f.typ,
 		load: func() smt.Term {
 			if fv.volField[f.name] {
 				return fv.fresh(st, "volf_"+f.name, f.typ)
 			}
 			fv.instFrames(key, ref)
-			v := fv.c.Let("f_"+f.name, smt.Select(fv.heapGet(st, key), ref))
+			if hasBoundVar(ref) {
+				// inside a quantifier of a spec: no definition/assumption may capture the bound variable
+				return smt.Select(fv.heapGet(st, key), ref)
+			}
+			raw := smt.Select(fv.heapGet(st, key), ref)
+			for _, e := range ints {
+				mk := fv.memKey(e.elem)
+				fv.instFrames(mk, e.arr)
+				raw = smt.Ite(smt.Eq(ref, e.p), smt.App(f.sort, f.sel, smt.Select(smt.Select(fv.heapGet(st, mk), e.arr), e.pos)), raw)
+			}
+			v := fv.c.Let("f_"+f.name, raw)
 			fv.assume(st, fv.so.valid(v, f.typ, st.frontier))
 			return v
 		},
 		store: func(v smt.Term) {
 			fv.mut++
-			fv.heapSet(st, key, smt.Store(fv.heapGet(st, key), ref, v))
+			if len(ints) == 0 {
+				fv.heapSet(st, key, smt.Store(fv.heapGet(st, key), ref, v))
+				return
+			}
+			si := fv.so.structOf(structType)
+			any := smt.False
+			for _, e := range ints {
+				mk := fv.memKey(e.elem)
+				m := fv.heapGet(st, mk)
+				el := smt.Select(smt.Select(m, e.arr), e.pos)
+				var args []smt.Term
+				for j := range si.fields {
+					if si.fields[j].name == f.name {
+						args = append(args, v)
+					} else {
+						args = append(args, smt.App(si.fields[j].sort, si.fields[j].sel, el))
+					}
+				}
+				hit := smt.Eq(ref, e.p)
+				fv.heapSet(st, mk, smt.Ite(hit, smt.Store(m, e.arr, smt.Store(smt.Select(m, e.arr), e.pos, smt.App(si.sort, si.ctor, args...))), m))
+				any = smt.Or(any, hit)
+			}
+			h := fv.heapGet(st, key)
+			fv.heapSet(st, key, smt.Ite(any, h, smt.Store(h, ref, v)))
 		}}
 }
 
@@ -305,6 +352,9 @@ func (fv *funcVerifier) derefLval(st *State, ref smt.Term, t types.Type) lval {
 	return lval{typ: t,
 		load: func() smt.Term {
 			fv.instFrames(key, ref)
+			if hasBoundVar(ref) {
+				return smt.Select(fv.heapGet(st, key), ref)
+			}
 			v := fv.c.Let("deref", smt.Select(fv.heapGet(st, key), ref))
 			fv.assume(st, fv.so.valid(v, t, st.frontier))
 			return v
@@ -589,6 +639,12 @@ func (fv *funcVerifier) mapLen(st *State, m smt.Term, mt *types.Map) smt.Term {
 	fv.instFrames(ln, m)
 	l := fv.c.Let("maplen", smt.Ite(smt.Eq(m, smt.IntLit(0)), smt.IntLit(0), smt.Select(fv.heapGet(st, ln), m)))
 	fv.assume(st, smt.And(smt.Ge(l, smt.IntLit(0)), smt.Le(l, smt.IntLit(maxLen))))
+	// an empty map has no keys (len is the cardinality of the domain)
+	dom, _, _ := fv.mapKeys(mt)
+	fv.instFrames(dom, m)
+	qk := smt.Term{S: "len_k", Sort: fv.so.sortOf(mt.Key())}
+	fv.assume(st, smt.Implies(smt.And(smt.Ne(m, smt.IntLit(0)), smt.Eq(l, smt.IntLit(0))),
+		smt.Forall([]smt.Term{qk}, smt.Not(smt.Select(smt.Select(fv.heapGet(st, dom), m), qk)))))
 	return l
 }
 
@@ -921,6 +977,23 @@ func (fv *funcVerifier) evalUnary(st *State, x *ast.UnaryExpr) smt.Term {
 				fv.assume(st, smt.Gt(t, smt.IntLit(0)))
 				fv.note("address of package variable %s: opaque pointer", v.Name())
 				return t
+			}
+		}
+		// &s[i] with s a slice of structs: interior pointer, accesses through it are
+		// redirected to the slice element (see fieldLval)
+		if ix, ok := inner.(*ast.IndexExpr); ok {
+			if sl, ok := fv.typeOf(ix.X).Underlying().(*types.Slice); ok {
+				if _, isStruct := sl.Elem().Underlying().(*types.Struct); isStruct {
+					if _, opaque := opaqueNamed(sl.Elem()); !opaque {
+						sv := fv.evalExpr(st, ix.X)
+						iv := fv.evalExpr(st, ix.Index)
+						fv.boundsCheck(st, iv, slLen(sv), ix)
+						r := fv.alloc(st, "elemptr")
+						fv.interior = append(fv.interior, interiorPtr{p: r, arr: slArr(sv), pos: fv.c.Let("epos", smt.Add(slOff(sv), iv)), elem: sl.Elem()})
+						fv.note("address-of %s: interior pointer, field accesses through it are redirected to the slice element (pointer identity of interior pointers is not modelled)", fv.exprStr(inner))
+						return r
+					}
+				}
 			}
 		}
 		// &x.f, &s[i]: pointer into an object — abstracted
